@@ -174,13 +174,9 @@ func ReadFile(r Reader, out interface{}, cb func(val unsafe.Pointer, rb *Resourc
 		if err != nil {
 			return fmt.Errorf("reading data block length. %w", err)
 		}
-		if cap(compressed) < int(dataLength) {
-			compressed = make([]byte, dataLength)
-		} else {
-			compressed = compressed[:dataLength]
-		}
-		if n, err := io.ReadFull(r, compressed); err != nil {
-			return fmt.Errorf("reading %d bytes of compressed data: %w after %d bytes", dataLength, err, n)
+		compressed, err = readN(r, compressed, dataLength)
+		if err != nil {
+			return fmt.Errorf("reading %d bytes of compressed data: %w after %d bytes", dataLength, err, len(compressed))
 		}
 		uncompressed, err := decoder.decompress(compressed)
 		if err != nil {
@@ -264,9 +260,35 @@ func readBytes(r Reader) ([]byte, error) {
 	if err != nil {
 		return nil, err
 	}
-	v := make([]byte, l)
-	_, err = io.ReadFull(r, v)
-	return v, err
+	return readN(r, nil, l)
+}
+
+// readN reads exactly n bytes from r into buf, re-using buf's memory if it is
+// big enough. n comes from the data, so we don't allocate more than a chunk
+// ahead of what we've actually managed to read.
+func readN(r io.Reader, buf []byte, n int64) ([]byte, error) {
+	if n < 0 {
+		return buf[:0], fmt.Errorf("negative length %d", n)
+	}
+	const chunk = 1 << 16
+	buf = buf[:0]
+	for int64(len(buf)) < n {
+		next := n
+		if next > int64(len(buf))+chunk && next > int64(cap(buf)) {
+			next = max(int64(len(buf))+chunk, int64(cap(buf)))
+		}
+		if int64(cap(buf)) < next {
+			grown := make([]byte, len(buf), max(next, 2*int64(cap(buf))))
+			copy(grown, buf)
+			buf = grown
+		}
+		read, err := io.ReadFull(r, buf[len(buf):next])
+		buf = buf[:len(buf)+read]
+		if err != nil {
+			return buf, err
+		}
+	}
+	return buf, nil
 }
 
 func (fh FileHeader) schema() (schema Schema, err error) {
